@@ -10,7 +10,7 @@
    [C28_components_linearizable] instantiates the premise of part 1 with it. *)
 From Coq Require Import String List NArith Bool.
 From LV Require Import model.LockDiscipline model.Lin proofs.LinSim proofs.LinHW proofs.LinHB proofs.Lin proofs.LinTable
-  model.Wlru model.Semaphore model.LinObjects proofs.LinInstances proofs.LinBuffer gen.LockTable.
+  model.Wlru model.Semaphore model.LinObjects model.CrashBase model.LinMulti proofs.LinMulti proofs.LinInstances proofs.LinBuffer gen.LockTable.
 Import ListNotations.
 Local Open Scope string_scope.
 
@@ -193,6 +193,48 @@ Theorem C28_buffer_mutators_linearizable :
          (hist bop (option Buffer.out) tr).
 Proof. exact (fun fc fp limN limS => buffer_mutators_linearizable fc fp limN limS checked_table C28_buffer_table_check). Qed.
 
+(* ---- several mutexes: lock order, deadlock freedom, the pool ---- *)
+(* generic: a machine in which a thread asks for a lock only above the ranks of the locks it holds never
+   reaches a configuration with a cycle of waiting threads *)
+Theorem C28_ordered_locks_no_deadlock :
+  forall (lock : Type) (rank : lock -> nat) (c : lconfig lock),
+    lreach lock rank c -> ~ deadlocked lock c.
+Proof. exact ordered_locks_no_deadlock. Qed.
+
+(* the (held, acquired) pairs of mutex classes that lockscan saw in the code increase along this ranking;
+   two locks of one class (two stores) are never held together (there is no pair (x, x)) *)
+Definition lock_rank (m : string) : N :=
+  if String.eqb m "syncedpool.Mutex" then 1 else if String.eqb m "syncedpool.flushing" then 2
+  else if String.eqb m "syncedpool.queuedDropsMu" then 3 else if String.eqb m "flushable.lock" then 4
+  else if String.eqb m "eventsbuffer.mu" then 5 else if String.eqb m "wlru.lock" then 6
+  else if String.eqb m "datasemaphore.mu" then 7 else 0.
+Theorem C28_lock_order_ranked :
+  forallb (fun e => N.ltb 0 (lock_rank (fst e)) && N.ltb (lock_rank (fst e)) (lock_rank (snd e))) lock_order = true.
+Proof. vm_compute. reflexivity. Qed.
+
+(* SyncedPool's own operations (Flush, NotFlushedSizeEst, Names, OpenDB, GetUnderlying, Initialize) hold the pool
+   mutex from beginning to end: one-mutex object over model/SyncedPool.v (LinObjects.pl_step).  A Flush that
+   released the pool mutex between the dirty marks and the data would have two sections and break the check. *)
+Theorem C28_pool_table_check : tk_check lkeys lk_readonly checked_table = true.
+Proof. vm_compute. reflexivity. Qed.
+
+Theorem C28_pool_operations_linearizable :
+  forall (fk : CrashBase.bytes) (s0 : pstate) tr c,
+    exec pstate lop pres (option pres) (os_linit lop pres) (os_mstep _ _ _ (lstep_pool fk)) (os_fin lop pres)
+         nowait nowstep (poolkind checked_table) s0 tr c ->
+    linearizable pstate lop pres (option pres) (os_linit lop pres) (os_mstep _ _ _ (lstep_pool fk)) (os_fin lop pres)
+         nowait nowstep s0 (hist lop pres tr).
+Proof. exact (fun fk => pool_ops_linearizable fk checked_table C28_pool_table_check). Qed.
+
+(* ... but together with writes through the store handles (which take only the store's lock) the pool is NOT
+   linearizable: exactly these pool operations visit the stores in SEVERAL separate critical sections of the
+   stores' locks (not two-phase), so a handle write can fall between two of them.  Recorded finding
+   C28-pool-multi-store-not-atomic; demonstrated on the real code by the POOLMID case. *)
+Theorem C28_pool_multi_store_ops_refuted :
+  map row_key (filter (fun r => r_exported r && negb (is_self r) && negb (r_quiescent r) && N.ltb 1 (r_sections r)) lock_table)
+  = [("SyncedPool", "Flush"); ("SyncedPool", "Initialize"); ("SyncedPool", "NotFlushedSizeEst")].
+Proof. vm_compute. reflexivity. Qed.
+
 (* re-entrancy: no callback written as a function literal at a construction site of one of the objects calls back
    into the object it is given to (regenerated by lockscan over the whole repository; callbacks supplied from
    elsewhere — cb_external — are covered only by the hypothesis of the instances) *)
@@ -360,6 +402,11 @@ Print Assumptions C28_flushable_linearizable.
 Print Assumptions C28_flushable_race_free.
 Print Assumptions C28_buffer_table_check.
 Print Assumptions C28_buffer_mutators_linearizable.
+Print Assumptions C28_ordered_locks_no_deadlock.
+Print Assumptions C28_lock_order_ranked.
+Print Assumptions C28_pool_table_check.
+Print Assumptions C28_pool_operations_linearizable.
+Print Assumptions C28_pool_multi_store_ops_refuted.
 Print Assumptions C28_callbacks_not_reentrant.
 Print Assumptions C28_semaphore_table_check.
 Print Assumptions C28_semaphore_linearizable.
